@@ -21,13 +21,24 @@
 
    on / nb / sb = what the server answered (impl format) to `ON d`, `NOT BEFORE d BEFORE d+1`, `SINCE d BEFORE d+1`.
    Theorems `C15.on_is_day_interval` / `C15.on_is_since_before_partial` are the same identities on the model.
+
+   dialect `c15-unfold <header block hex>` (correspondence; harness/d_search_unfold.go): `rfc822.NewHeader` + `Entries`,
+   i.e. the keyed fields in order with their merged ("unfolded") values — `Search.headerOf` (C13's entry parser +
+   `Search.unfold` = mergeMultiline).  Answer: `err` | `ok -` | `ok name=value,…` (hex, ~ = empty).
+
+   dialect `judge-c15-hdr <hdr> <stored literal hex>`: does the header the oracle claims for a message (the `hdr` item
+   of `data`: fields and unfolded values as GENERATED) equal the header the model derives from the stored literal
+   (`Search.hdrOfLiteral`)?  `ok nontrivial` (some value of the literal is folded) | `ok trivial` | `violation hdr-derivation …`.
 -/
 import GluonModel.Driver.Codec
 import GluonModel.Spec.SearchSpec
+import GluonModel.Model.SearchHeader
 
 -- DIALECT: c15-search DSearch.runSearch
 -- DIALECT: judge-c15-search DSearch.judgeSearch
 -- DIALECT: judge-c15-dayident DSearch.judgeDayIdent
+-- DIALECT: c15-unfold DSearch.runUnfold
+-- DIALECT: judge-c15-hdr DSearch.judgeHdr
 
 namespace Gluon.Driver.DSearch
 open Gluon Gluon.Search Gluon.Codec
@@ -300,6 +311,41 @@ def judgeDayIdent (args : List String) : String :=
       else if ron != rsb then "ok known since-zone"
       else if ron.isEmpty || ron.length == s.length then "ok trivial" else "ok nontrivial"
     | _, _, _, _ => "ok trivial not-answered"
+  | _ => "violation unparsable-case"
+
+def hexDigit (n : Nat) : Char := if n < 10 then Char.ofNat (48 + n) else Char.ofNat (87 + n)
+
+def hexOf (b : Bytes) : String :=
+  if b.isEmpty then "~" else String.ofList (b.flatMap fun c => [hexDigit (c.toNat / 16), hexDigit (c.toNat % 16)])
+
+def showHdr : Option (List (Bytes × Bytes)) → String
+  | none => "!"
+  | some [] => "-"
+  | some l => ",".intercalate (l.map fun e => hexOf e.1 ++ "=" ++ hexOf e.2)
+
+def runUnfold (args : List String) : String :=
+  match args with
+  | [h] =>
+    match headerOf (unhex h) with
+    | none => "err"
+    | some l => "ok " ++ showHdr (some l)
+  | _ => "bad-op"
+
+/-- is there a line break inside some field value of the header block (a fold), as opposed to the one that ends it -/
+def hasFold (text : Bytes) : Bool :=
+  let h := (Rfc822.split text).1
+  match Rfc822.parseEntries h with
+  | .error _ => false
+  | .ok es => es.any fun e => e.hasKey && ((e.value h).dropLast.dropLast).contains 10
+
+def judgeHdr (args : List String) : String :=
+  match args with
+  | hdr :: lit :: _ =>
+    let text := unhex lit
+    let claimed : Option (List (Bytes × Bytes)) := if hdr == "-" then some [] else parseHdr hdr
+    let derived := hdrOfLiteral text
+    if claimed == derived then (if hasFold text then "ok nontrivial" else "ok trivial")
+    else s!"violation hdr-derivation model={showHdr derived}"
   | _ => "violation unparsable-case"
 
 end Gluon.Driver.DSearch
